@@ -8,3 +8,34 @@ package ctxerrgroup
 //@ func WithContext(ctx) (g, c)
 //@   props C20
 //@   ensures usable: g != nil && c != nil
+
+//@ type Group as g
+//@   nonnil eg
+
+// GoContext starts exactly one goroutine in the wrapped group, which calls f
+// with the context given and returns what f returns.
+//@ func Group.GoContext(g, ctx, f)
+//@   props C20 C19
+//@   ghost n int = 0
+//@   on enter errgroup.Group.Go(e, fn): assert(e == g.eg && n == 0, "started_in_the_wrapped_group_once"); n++
+//@   ensures started: n == 1
+
+//@ func Group.GoContext#1() (err)
+//@   props C20 C19
+//@   ghost n int = 0
+//@   ghost res error = nil
+//@   on call f(c) (e): assert(c == ctx && n == 0, "function_gets_the_context_given"); res = e; n++
+//@   ensures result_passed_on: n == 1 && err == res
+
+//@ func Group.Wait(g) (err)
+//@   props C20 C19
+//@   ghost n int = 0
+//@   ghost res error = nil
+//@   on call errgroup.Group.Wait(e) (r): assert(e == g.eg && n == 0, "waits_for_the_wrapped_group"); res = r; n++
+//@   ensures result_passed_on: n == 1 && err == res
+
+//@ func Group.Go(g, f)
+//@   props C20 C19
+//@   ghost n int = 0
+//@   on enter errgroup.Group.Go(e, fn): assert(e == g.eg && fn == f && n == 0, "started_in_the_wrapped_group_once"); n++
+//@   ensures started: n == 1
